@@ -103,6 +103,10 @@ func (n *RawNode) newContext() context.Context {
 
 // close this node.
 func (n *RawNode) close() error {
+	if n.cancel == nil {
+		// never connected (WithNoConnect): nothing to close
+		return nil
+	}
 	// important to cancel first to stop goroutines
 	n.cancel()
 	if n.conn == nil {
